@@ -1,7 +1,7 @@
 (* C01 — non-vacuity: concrete environments, stores and tables. *)
 From Coq Require Import Floats Lia.
 From GL Require Import Common.Bytes Lua.Syntax Lua.Num Lua.Values Lua.Names Lua.Eval Lua.Run
-  Lua.ValuesFacts Lua.TableFacts Lua.MonadFacts Lua.EvalStepFacts Lua.CallFacts Lua.CoreFacts.
+  Lua.ValuesFacts Lua.TableFacts Lua.MonadFacts Lua.EvalStepFacts Lua.CallFacts Lua.CoreFacts Lua.EvalFuelFacts.
 
 Notation num z := (VNum (f_of_Z z)).
 Notation enum z := (ENum (f_of_Z z)).
@@ -82,3 +82,22 @@ Proof.
 Qed.
 Example ex_concat_number : binop_v 3 [] OConcat (VStr [120]) (num 12) st = Ret (VStr [120;49;50]) st.
 Proof. rewrite (concat_accepts_numbers_lemma 2 [] [120] (f_of_Z 12) [49;50] st); [reflexivity|vm_compute; reflexivity]. Qed.
+
+(* fuel monotonicity: the outcome computed with fuel 60 is the outcome at the harness fuel 30000
+   (obtained from the theorem, not by running the evaluator again) *)
+Definition prog : list stmt :=
+  [SLocal 1 [n_a] [enum 0];
+   SNumFor 2 n_b (enum 1) (enum 4) None [SAssign 2 [EVar n_a] [EBin OAdd (EVar n_a) (EVar n_b)]];
+   SCall 3 (ECall (EVar s_emit) [EVar n_a])].
+Definition is_finfuel (f : fin) : bool := match f with FinFuel => true | _ => false end.
+Example ex_prog_trace : match run_program 60 no_devs prog with FinOk _ s => trace s | _ => [] end = [[num 10]].
+Proof. vm_compute. reflexivity. Qed.
+Example ex_prog_determined : is_finfuel (run_program 60 no_devs prog) = false.
+Proof. vm_compute. reflexivity. Qed.
+Example ex_fuel_mono : run_program (Z.to_nat 30000) no_devs prog = run_program 60 no_devs prog.
+Proof.
+  apply run_program_stable_lemma with (n := 60%nat).
+  - lia.
+  - exact eq_refl.
+  - intros H. pose proof ex_prog_determined as T. rewrite H in T. discriminate.
+Qed.
